@@ -137,6 +137,13 @@ def monitor (hosts : List (String × List (Nat × Nat))) (decls : List TaskDecl)
       | .ipc p _ => some p | .tcp _ _ _ => none).flatten))
     then some "ipc_path_reused"
   else if !decide (WF tasks) then some "not_wellformed"
+  -- the local bind map is exactly what the modelled allocation loop yields for the endpoints handed out
+  else if !(tasks.all fun t =>
+      let eps := t.inbound.map fun c => (Assoc.get t.loc c.name).getD default
+      let want := allocLocal [] t.inbound eps
+      want.all (fun kv => decide (Assoc.get t.loc kv.1 = some kv.2)) &&
+      t.loc.all (fun kv => decide (Assoc.get want kv.1 = some kv.2)))
+    then some "alloc_loop_mismatch"
   else none
 
 def processLine (line : String) : String :=
@@ -164,12 +171,13 @@ def processLine (line : String) : String :=
             | some r =>
               if decide (Spec tasks r) then (true, "-")
               else
-                -- attribute the failure to the excluded hypothesis only if nothing else is wrong
-                let weak : Bool := match r with
-                  | .ok res => decide (res.length = tasks.length ∧ Matched true tasks res ∧ Passthrough tasks res ∧
-                      ¬ Unmatched tasks ∧ clash (claims tasks) = false)
-                  | _ => false
-                if weak && !noInboundTarget tasks then (false, "inbound_target_still_advertised") else (false, "-")
+                -- attribute the failure to an excluded hypothesis only if nothing else is wrong
+                let ntOk := noInboundTarget tasks
+                let advOk := tasks.all fun t => decide (aliasesAdvertised t)
+                if !ntOk && decide (SpecW true false tasks r) then (false, "inbound_target_still_advertised")
+                else if !advOk && decide (SpecW false true tasks r) then (false, "alias_redefined_within_task")
+                else if !ntOk && !advOk && decide (SpecW true true tasks r) then (false, "inbound_target_still_advertised")
+                else (false, "-")
           s!"{modelObs}\t{if spec then 1 else 0}\t{hyp}"
       | _, _, _, _ => "BADINPUT\t0\t-"
     | _, _ => "BADINPUT\t0\t-"
